@@ -48,6 +48,7 @@ func checkC02(ctx *Ctx, r *Report) {
 	c09UnfoldAccumulators(ctx, r)
 	c09TypedConstantSetup(ctx, r)
 	c02PythonValueFormatter(ctx, r)
+	c02GoImportsUsed(ctx, r)
 }
 
 // kindConsts: the constants of ast.Kind / ast.ScalarKind.
@@ -1663,4 +1664,96 @@ func c02PythonValueFormatter(ctx *Ctx, r *Report) {
 		r.Check(has, "kinds/python-value-formatter", "python.formatValue handles "+want.typ, fd.Pos(), "a case of its own before the %#v fall-through",
 			"python.formatValue has no case for "+want.what+" ("+want.typ+"): such a default is printed with Go's %#v — `map[string]interface {}{\"a\":\"b\"}` / `true` — which is not Python: the module does not compile while the run succeeds")
 	}
+}
+
+// c02GoImportsUsed: the converse of c02Imports for Go, where an import that is not used is a compile error (only
+// the optional goimports post-processing hides it): every `$v := importStdPkg "path"` / `importPkg "name"` action of
+// the Go templates is followed, in the branch that executes it, by a use of the package — the literal text
+// `name.`, a string constant of an action containing it, or the variable itself.
+func c02GoImportsUsed(ctx *Ctx, r *Report) {
+	ts, err := loadTemplates(ctx, "golang")
+	if err != nil {
+		r.Undecided("cannot parse golang templates: %v", err)
+		return
+	}
+	n := 0
+	for _, name := range ts.names() {
+		tree := ts.trees[name]
+		seen := map[string]int{}
+		var visit func(list *parse.ListNode)
+		visit = func(list *parse.ListNode) {
+			if list == nil {
+				return
+			}
+			for i, node := range list.Nodes {
+				switch x := node.(type) {
+				case *parse.IfNode:
+					visit(x.List)
+					visit(x.ElseList)
+				case *parse.RangeNode:
+					visit(x.List)
+					visit(x.ElseList)
+				case *parse.WithNode:
+					visit(x.List)
+					visit(x.ElseList)
+				case *parse.ActionNode:
+					if len(x.Pipe.Decl) != 1 || len(x.Pipe.Cmds) != 1 {
+						continue
+					}
+					args := x.Pipe.Cmds[0].Args
+					if len(args) != 2 {
+						continue
+					}
+					id, ok := args[0].(*parse.IdentifierNode)
+					if !ok || (id.Ident != "importStdPkg" && id.Ident != "importPkg") {
+						continue
+					}
+					lit, ok := args[1].(*parse.StringNode)
+					if !ok {
+						continue
+					}
+					n++
+					pkg := lit.Text
+					if k := strings.LastIndex(pkg, "/"); k >= 0 {
+						pkg = pkg[k+1:]
+					}
+					v := x.Pipe.Decl[0].Ident[0]
+					used := false
+					for j, other := range list.Nodes {
+						if j == i {
+							continue
+						}
+						walkTmpl(other, func(m parse.Node) bool {
+							switch y := m.(type) {
+							case *parse.TextNode:
+								if strings.Contains(string(y.Text), pkg+".") {
+									used = true
+								}
+							case *parse.StringNode:
+								if strings.Contains(y.Text, pkg+".") {
+									used = true
+								}
+							case *parse.VariableNode:
+								if len(y.Ident) > 0 && y.Ident[0] == v {
+									used = true
+								}
+							}
+							return !used
+						})
+					}
+					key := fmt.Sprintf("golang %s imports %q", name, lit.Text)
+					seen[key]++
+					cons := key
+					if seen[key] > 1 {
+						cons = fmt.Sprintf("%s #%d", key, seen[key])
+					}
+					r.Check(used, "skeleton/go-import-used", cons, token.NoPos, ts.posOf(ctx, name, x)+": the branch that registers the import also writes `"+pkg+".`",
+						ts.posOf(ctx, name, x)+": the template registers the import of "+lit.Text+" but nothing in the branch that executes this action uses the package: the emitted file has an unused import, a compile error unless the optional goimports post-processing removes it (skip_post_formatting: true)")
+				}
+			}
+		}
+		visit(tree.Root)
+	}
+	r.Count("import registrations in the Go templates", n)
+	r.Floor("import registrations in the Go templates", 20)
 }
